@@ -23,10 +23,33 @@ import GoaktVerif.Model.C04.Unbounded
 namespace GoaktVerif.Model.C04.Fair
 open GoaktVerif.Model.C04
 
+/-- `resvL`, `cntL`, `deqd`, `decd`, `held` are GHOST fields (written, never read; invisible to the tie):
+the messages in the order the sub-queue's `Swap:tail` reserved them, the messages in the order
+`Add:pending` counted them, the number of successful sub-dequeues (`Store:head`), the number of
+`Add:pending(−1)`, and the number of messages taken from the sub-queue and not yet subtracted -/
 structure Box where
   mb : Unbounded.Sh
   active : Bool
   pending : Int
+  resvL : List Nat := []
+  cntL : List Nat := []
+  deqd : Nat := 0
+  decd : Nat := 0
+  held : Nat := 0
+
+/-- one UnboundedMailbox step on the sub-queue, with the ghost bookkeeping -/
+def Box.ubStep (b : Box) (pc : Unbounded.PC) : Box :=
+  { b with
+    mb := (Unbounded.exec b.mb pc).1
+    resvL := match pc with
+      | .enq2 v => b.resvL ++ [v]
+      | _ => b.resvL
+    deqd := match pc with
+      | .deq3 _ _ => b.deqd + 1
+      | _ => b.deqd
+    held := match pc with
+      | .deq3 _ _ => b.held + 1
+      | _ => b.held }
 
 structure Sh where
   boxes : Nat → Box
@@ -114,7 +137,7 @@ def activate (s : Sh) (k : Nat) (r : Res) : Sh × Next PC :=
 def exec (s : Sh) : PC → Sh × Next PC
   | .ub k first pc =>
     let r := Unbounded.exec (s.boxes k).mb pc
-    let s' := s.updBox k fun b => { b with mb := r.1 }
+    let s' := s.updBox k fun b => b.ubStep pc
     match r.2 with
     | .goto pc' => (s', .goto (.ub k first pc'))
     | .ret (.val n) => (s', .goto (.j1 k n))         -- sq.mailbox.Dequeue returned a message
@@ -123,7 +146,7 @@ def exec (s : Sh) : PC → Sh × Next PC
   | .f4 k v => ({ s with length := s.length + 1 }, .goto (.f5 k v))
   | .f5 k v =>
     let p := (s.boxes k).pending + 1
-    (s.updBox k fun b => { b with pending := p }, .goto (.ub k (p == 1) (.enq1 v)))
+    (s.updBox k fun b => { b with pending := p, cntL := b.cntL ++ [v] }, .goto (.ub k (p == 1) (.enq1 v)))
   | .f6 k =>
     if (s.boxes k).active = false then activate (s.updBox k fun b => { b with active := true }) k .ok
     else (s, .ret .ok)
@@ -153,7 +176,7 @@ def exec (s : Sh) : PC → Sh × Next PC
   | .j1 k n => ({ s with length := s.length - 1 }, .goto (.j2 k n))
   | .j2 k n =>
     let rem := (s.boxes k).pending - 1
-    let s' := s.updBox k fun b => { b with pending := rem }
+    let s' := s.updBox k fun b => { b with pending := rem, decd := b.decd + 1, held := b.held - 1 }
     if rem > 0 then activate s' k (.val n)
     else if rem < 0 then (s', .goto (.j3 k n))
     else (s', .goto (.j4 k n))
